@@ -723,7 +723,43 @@ def correspondence(run, name, cases):
         return bool(c.meta.get("errors_as_class")) and c.impl.startswith("ERR ") and c.model.startswith("ERR ") and \
             "fuel" not in c.model and "model-validator" not in c.model
 
-    return [i for i, c in enumerate(cases) if c.coq is not None and not same(c)]
+    bad = [i for i, c in enumerate(cases) if c.coq is not None and not same(c)]
+    # a model refused by the model's own validators: say WHICH proved statement the returned model breaks (replay detail)
+    rejected = [cases[i] for i in bad if cases[i].model and "model-validator" in cases[i].model][:8]
+    if rejected:
+        try:
+            for c, names in zip(rejected, failed_validators(run, name + "val", [c.coq for c in rejected])):
+                c.meta["statements_the_returned_model_breaks (validators)"] = names
+        except Exception:  # noqa: BLE001
+            pass
+    return bad
+
+
+VALIDATORS = [("global_unique (mmain m)", "every value name defined once in the whole model"),
+              ("node_names_unique (mmain m)", "every non-empty node name used once"),
+              ("imports_unique m", "one opset import per domain"), ("floor_ok m", "default opset >= 14"),
+              ("emitted_once p' (mmain m)", "every reachable operator emitted exactly once"),
+              ("placed p' (mmain m)", "every node in the innermost graph enclosing its uses"),
+              ("check_plan p' 0 (mmain m)", "definition before use / well-formed plan"),
+              ("functions_exact p' m", "one FunctionProto per used function key"),
+              ("function_imports_cover p' m", "function imports cover body requirements"),
+              ("function_plans p' m", "function bodies well-formed"), ("inline_blocks_alpha p' m", "inlined blocks are renamings of the inlined model"),
+              ("names_ok p' 0 (mmain m)", "names denote Vars injectively"),
+              ("io_exact p' i o (r_drop r) (depends_on p' 0) (mmain m)", "graph inputs/outputs are exactly the requested ones")]
+
+
+def failed_validators(run, name, cases):
+    header = COQ_HEADER.replace("Build Show Validate.", "Build Show Sem Plan Named Validate.")
+    exprs = []
+    for p, r in cases:
+        exprs.append(f"let p := {p} in let r := {r} in match build_public p r, all_vars (r_inputs r), all_vars (r_outputs r) with "
+                     f"| inl m, Some i, Some o => let p' := final_prog p r i o in [{'; '.join(v for v, _ in VALIDATORS)}] | _, _, _ => [] end")
+    out = run.coq_eval(name, header, exprs, shard=1)
+    res = []
+    for x in out:
+        flags = [t.strip() for t in x.strip().strip("[]").replace("\n", " ").split(";")]
+        res.append([VALIDATORS[k][1] for k, f in enumerate(flags) if f == "false" and k < len(VALIDATORS)])
+    return res
 
 
 def harvest_names(m: onnx.ModelProto):
